@@ -52,7 +52,7 @@ def plans(tier, seed):
             for j in items:
                 if i != j:
                     pool.append(("burn", [a, i, j]))
-        pool += [("sweep", [a]), ("flag", [a]), ("charge", [a])]
+        pool += [("sweep", [a]), ("flag", [a]), ("charge", [a]), ("audit", [a])]
     while len(out) < len(curated) + n:
         k = rng.choice([2, 3, 3, 4] if tier == "quick" else [2, 3, 4, 4])
         out.append([rng.choice(pool) for _ in range(k)])
